@@ -274,11 +274,15 @@ func paramType(p Param, positional bool) reflect.Type {
 	}
 	fields := []reflect.StructField{{Name: "In", Type: inType, Anonymous: true}}
 	for i, f := range p.Fields {
-		fields = append(fields, reflect.StructField{
+		sf := reflect.StructField{
 			Name: fmt.Sprintf("F%d", i),
 			Type: paramType(f, false),
 			Tag:  paramTag(f),
-		})
+		}
+		if f.Kind == PObj && f.Embed {
+			sf.Name, sf.Anonymous = fmt.Sprintf("E%d", i), true
+		}
+		fields = append(fields, sf)
 	}
 	return reflect.StructOf(fields)
 }
